@@ -287,6 +287,28 @@ func c14Run(c *Ctx) {
 			}
 		}
 	}
+	// a condition may be any expression — a negation, a complement, arithmetic, a comparison, an element, a call, an
+	// assignment: the truthiness of its VALUE decides, exactly as ! and the logical operators see that value
+	for _, E := range []string{"0", "5", "(-1)", "0.5", `p("c", 5)`, `p("c", 0)`, "1"} {
+		for si, shape := range []string{"-%s", "~%s", "!%s", "(-%s)", "- -%s", "~~%s", "!-%s", "!~%s", "-%s && 1", "0 || ~%s", "(-%s) || 0", "%s + 0", "%s - 5", "%s == 5", "[%s][0]", "idf(%s)", "w = %s", "-%s * 1", "~%s + 1", "-(%s - 5)"} {
+			cond := fmt.Sprintf(shape, E)
+			src := tpre + Lines(Fun("idf", "x", " "+Ret("x")+" "), Var("w", "0"), IfElse(cond, Print(`"then"`), Print(`"else"`)), Var("n", "0")+" "+While(cond, "{ n = n + 1; "+Print(`"body"`)+" "+Break()+" }"),
+				For(";", cond, "", "{ "+Print(`"fbody"`)+" "+Break()+" }"), Print("!!("+cond+")"), Print("!("+cond+")"), Print("("+cond+") || \"r\""))
+			if c.Mine() {
+				c14Judge(c, &Case{Gen: "truthiness-condition-shapes", Src: src, X: map[string]string{"form": fmt.Sprintf("condition-shape%d", si)}})
+			}
+		}
+	}
+	// declaration lists: every initialiser sees the variables declared before it in the same list
+	for _, src := range []string{
+		pre + Lines(K["var"]+` a = p("A", 2), b = a * p("B", 10), c3 = a + b;`, Print("[a, b, c3]")),
+		pre + Lines(Var("n", "100"), Fun("f", "", " "+K["var"]+` n = p("N", 3), twice = n * 2; `+Ret("twice")+" "), Print("f()"), Print("n")),
+		pre + Lines(Var("xs", "[4, 5, 6]"), For(K["var"]+" n = "+BI("len", "xs")+", i = n - 1;", "i >= 0", "i = i - 1", "{ "+Print("xs[i]")+" }"), "{ "+K["var"]+` u = p("U", 1), v = [u, u + 1], w2 = v[1] * 2; `+Print("w2")+" }"),
+	} {
+		if c.Mine() {
+			c14Judge(c, &Case{Gen: "handwritten", Src: src})
+		}
+	}
 	// truthiness of literals written directly in the context (no variable in between)
 	for _, v := range vals {
 		if strings.ContainsAny(v.expr, ".()[") && !strings.HasPrefix(v.expr, "[") && !strings.HasPrefix(v.expr, `("`) && v.expr != "0.5" && v.expr != "0.001" {
